@@ -616,6 +616,10 @@ func (r *renderer) invoke(i int, at, end *Pos) (toks []tk, assign bool) {
 		if canRecurse(l) {
 			arg = fmt.Sprint(l.Rec)
 		}
+		if l.Var%3 == 0 {
+			// a call inside the argument list: the call site must still be the callee's
+			return []tk{{s: fn, start: at}, t("("), t(arg), t(","), t("noop"), t("("), t(")"), {s: ")", end: end}}, false
+		}
 		return []tk{{s: fn, start: at}, t("("), t(arg), {s: ")", end: end}}, false
 	case "method":
 		if l.Var%2 == 0 {
@@ -623,6 +627,9 @@ func (r *renderer) invoke(i int, at, end *Pos) (toks []tk, assign bool) {
 		}
 		return []tk{{s: o, start: at}, t("["), t(`"m"`), t("]"), t("("), {s: ")", end: end}}, false
 	case "ctor":
+		if l.Var%4 == 2 {
+			return []tk{t("new"), {s: fn, start: at}, t("("), t("pick"), t("("), t("1"), t(")"), {s: ")", end: end}}, false
+		}
 		if l.Var%2 == 0 {
 			return []tk{t("new"), {s: fn, start: at}, t("("), {s: ")", end: end}}, false
 		}
